@@ -168,7 +168,7 @@ static int fire(int op, unsigned mask, const char *path) {
     int match = path ? (strstr(path, rules[i].path) != NULL) : ((mask >> i) & 1);
     if (!match) continue;
     rules[i].seen++;
-    if (hit < 0 && (rules[i].nth == 0 || rules[i].seen == rules[i].nth)) hit = i;
+    if ((rules[i].nth == 0 || rules[i].seen == rules[i].nth) && (hit < 0 || (rules[hit].act == ACT_SHORT && rules[i].act != ACT_SHORT))) hit = i;
   }
   pthread_mutex_unlock(&mu);
   return hit;
